@@ -16,7 +16,9 @@ Inductive tok :=
 | TOp (o : binop)
 | TInt (z : Z) | TConst (k : nat) | THash (n : nat)
 | TkLoc (i : nat) | TkPar (i : nat) | TkGlob (n : nat) | TkProp (n : nat)
-| TFun (f : nat) | TLFun (f : nat).
+| TFun (f : nat) | TLFun (f : nat)
+(* the <property> of <object> <id>: the property token carries the form and the property number *)
+| TThe | TOf | TObjProp (f : ofam) (pid : nat) | TKw (f : ofam) | TRawInt (z : Z) | TRawConst (k : nat) | TItemKw | TMenuProp (pid : nat).
 
 Definition render_tok (en : env) (t : tok) : string :=
   match t with
@@ -31,6 +33,21 @@ Definition render_tok (en : env) (t : tok) : string :=
   | TkGlob n | TkProp n => nm en n
   | TFun f => nm en f
   | TLFun f => nth f (e_lfuncs en) ""
+  | TThe => "the" | TOf => "of"
+  | TObjProp f pid =>
+    match f with
+    | FLast => "last " ++ nth (pid - 11) OPERATION_TYPES ""
+    | FNumber => "number of " ++ nth pid OPERATION_TYPES "" ++ "s"
+    | FMenuName => "name"
+    | FMenuItems => "number of menuItems"
+    | _ => nth pid (ftable f) ""
+    end
+  | TKw f => match f with FSound => "sound" | FSprite => "sprite" | FCast | FVideo => "cast" | FField => "field"
+                        | FMenuName | FMenuItems => "menu" | _ => "" end
+  | TRawInt z => str_of_int z            (* the identifier of an object, written as it is: a number ... *)
+  | TRawConst k => match nth k (e_consts en) (CInt 0) with CStr s => s | CInt z => str_of_int z end   (* ... or a pool constant *)
+  | TItemKw => "menuItem"
+  | TMenuProp pid => nth pid MENUITEM_PROPERTIES ""
   end.
 Definition render (en : env) (ts : list tok) : string := concat_all (map (render_tok en) ts).
 
@@ -46,6 +63,12 @@ Fixpoint pair_toks (l : list (list tok)) : list (list tok) :=
   | k :: v :: r => (k ++ [TColon; TSp] ++ v) :: pair_toks r
   | _ => []
   end.
+
+(* the identifier of a sound / sprite / cast / menu / menuItem: a constant is written as it is (IdentifiedObject) *)
+Definition raw_fam (f : ofam) : bool :=
+  match f with FSound | FSprite | FCast | FVideo | FMenuName | FMenuItems => true | _ => false end.
+Definition raw_or (x : expr) (ts : list tok) : list tok :=
+  match x with EInt n => [TRawInt n] | EConst k => [TRawConst k] | _ => ts end.
 
 Fixpoint pp_tok (en : env) (e : expr) {struct e} : list tok :=
   match e with
@@ -72,7 +95,12 @@ Fixpoint pp_tok (en : env) (e : expr) {struct e} : list tok :=
                     | [] => [TLB; TColon; TRB]
                     | _ => [TLB] ++ sep_toks (pair_toks (map (pp_tok en) items)) ++ [TRB]
                     end
-  | EObj _ _ _ | EMenu _ _ _ => [TInt 0]  (* placeholder: object properties are outside the text theorems (text_ok, lists_even) *)
+  | EObj f pid x =>
+    [TThe; TSp; TObjProp f pid; TSp; TOf; TSp] ++ (match f with FLast | FNumber => [] | _ => [TKw f; TSp] end) ++
+    (if raw_fam f then raw_or x (pp_tok en x) else pp_tok en x)
+  | EMenu pid it mn =>
+    [TThe; TSp; TMenuProp pid; TSp; TOf; TSp; TItemKw; TSp] ++ raw_or it (pp_tok en it) ++
+    [TSp; TOf; TSp; TKw FMenuName; TSp] ++ raw_or mn (pp_tok en mn)
   end.
 
 (* ---- the parser ---- *)
@@ -130,6 +158,13 @@ Fixpoint parse_u (fuel : nat) (ts : list tok) {struct fuel} : option (expr * lis
       | Some (a, r) => parse_loop f 1 a r
       | None => None
       end in
+    (* the identifier of an object: a plain number stands for itself, anything else is a unary-level expression *)
+    let operand := fun (ts : list tok) =>
+      match ts with
+      | TRawInt n :: r' => Some (EInt n, r')
+      | TRawConst k :: r' => Some (EConst k, r')
+      | _ => parse_u f ts
+      end in
     match ts with
     | TInt z :: r => Some (EInt z, r)
     | TConst k :: r => Some (EConst k, r)
@@ -159,6 +194,18 @@ Fixpoint parse_u (fuel : nat) (ts : list tok) {struct fuel} : option (expr * lis
     | TLFun fn :: r => Some (ELCall fn [], r)
     | TLB :: TColon :: TRB :: r => Some (EPList [], r)
     | TLB :: TRB :: r => Some (EList [], r)
+    | TThe :: TObjProp fam pid :: TOf :: r =>
+      (* the <property> of [<object keyword>] <operand>; a plain number after the keyword is the identifier itself *)
+      let r1 := match fam with FLast | FNumber => Some r | _ => match r with TKw _ :: r' => Some r' | _ => None end end in
+      match r1 with
+      | None => None
+      | Some r1' => match operand r1' with Some (x, r2) => Some (EObj fam pid x, r2) | None => None end
+      end
+    | TThe :: TMenuProp pid :: TOf :: TItemKw :: r =>
+      match operand r with
+      | Some (it, TOf :: TKw _ :: r1) => match operand r1 with Some (mn, r2) => Some (EMenu pid it mn, r2) | None => None end
+      | _ => None
+      end
     | TLB :: r =>
       (* a linear list, or a property list when the first element is followed by a colon *)
       match parse_e r with
